@@ -39,3 +39,25 @@ def styles_of(cs, folder=None):
         return {k: v for k, v in F.call_function(gs, [], {}, self_value=cs)}
     except (FoldRaise, TypeError, ValueError):
         return {}
+
+
+def mutable_ids(v_, out, depth=0):
+    """ids of every mutable object reachable from a folded value (an object of a class with its attributes, a dict, a list):
+    a layout's alignment, origin, extent and padding and their sizes included; enum members and scalars are shared by design"""
+    from ..core.constfold import Stub
+    if depth > 6 or id(v_) in out:
+        return out
+    if isinstance(v_, Stub) and v_.cls is not None:
+        out.add(id(v_))
+        for w_ in v_.attrs.values():
+            mutable_ids(w_, out, depth + 1)
+    elif isinstance(v_, dict):
+        out.add(id(v_))
+        for w_ in v_.values():
+            mutable_ids(w_, out, depth + 1)
+    elif isinstance(v_, (list, tuple)):
+        if isinstance(v_, list):
+            out.add(id(v_))
+        for w_ in v_:
+            mutable_ids(w_, out, depth + 1)
+    return out
